@@ -155,6 +155,7 @@ def run(ctx):
     impls = [c for c in p.subclasses(hb_base) if st_base in p.mro(c) and c.module.name.startswith("optuna.storages")]
     ctx.floor("R19.3", "heartbeat_storages", len(impls), 2, exact=True)
     _cas.cas_rule(ctx, "R19.3", label="fail-cas")
+    _cas.cas_rdb_atomic_rule(ctx, "R19.3", label="fail-cas")
     _cas.cas_dialect_rule(ctx, "R19.3", label="fail-cas")
     for c in impls:
         f2 = c.methods.get("set_trial_state_values")
